@@ -130,7 +130,14 @@ def fpToSdr (normal slip : V3 α) : α × α × α :=
   let s := if flip then s.neg else s
   let n := if flip then n.neg else n
   let (strike, dip) := normalToSd n
-  let rake := Flt.atan2 (-s.z) (s.x * n.y - s.y * n.x)
+  -- rake: both arguments of the first form carry a factor sin(dip); for (near) horizontal planes the
+  -- angle of the slip vector from the strike direction is measured with the in-plane unit vectors
+  let rake :=
+    if Flt.ltb (Flt.sin dip) (sci 1 6) then
+      Flt.atan2
+        (s.x * Flt.sin strike * Flt.cos dip - s.y * Flt.cos strike * Flt.cos dip - s.z * Flt.sin dip)
+        (s.x * Flt.cos strike + s.y * Flt.sin strike)
+    else Flt.atan2 (-s.z) (s.x * n.y - s.y * n.x)
   -- dip ∈ [0, π/2] (atan2 of two non-negative numbers): the `dip > π/2` corrections never fire
   let rake := if Flt.ltb Flt.pi rake then rake - c 2 * Flt.pi else rake
   let rake := if Flt.ltb rake (-Flt.pi) then rake + c 2 * Flt.pi else rake
